@@ -1,10 +1,10 @@
 use c12::*;
-use collector::Signal;
+use collector::{Abort, Signal};
 use std::sync::atomic::{AtomicBool, AtomicU32, Ordering};
 use vcore::proptest::prelude::*;
 use vcore::{Cx, Level, Res, Session};
 
-const RULE: &str = "a case is a scenario interpreted against a real emit_otlp emitter and the scripted local collector: transport {HTTP/JSON, HTTP/protobuf, gRPC} x gzip on/off x any non-empty subset of the three signals; per signal one small 'plug' event whose request the collector holds open, then 2-9 events with 300-700 KiB (sometimes tiny or >1 MiB) string payloads that accumulate into ONE batch which emit splits into 1..5+ size-limited requests; the collector answers the n-th request of that batch by script {ack, 4xx/5xx, non-zero grpc-status in trailers or in a Trailers-Only response, bare HTTP error on gRPC, close before reading, read then close, stall past the request timeout (30 s, scaled by hook H3) without answering / after the response HEADERS / after a fragment of the response body, wedge the whole connection (open, never answering again, reading or not, while new connections work), ack then close}; optionally one signal's endpoint is down (refused / reset / 503) for the whole case; the application ends with blocking_flush or by dropping the emitter (while batches are queued, or while a failed request waits for its back-off). Families: split (no fault), fault (1-2 scripted failures), stall, outage, drop, exhaust (batch A fails on every attempt until emit gives it up, then batch B whose first request fails once and must be re-sent and acknowledged). Non-trivial = some signal's batch needed >= 2 requests, or >= 1 request failed.";
+const RULE: &str = "a case is a scenario interpreted against a real emit_otlp emitter and the scripted local collector: transport {HTTP/JSON, HTTP/protobuf, gRPC} x gzip on/off x any non-empty subset of the three signals; per signal one small 'plug' event whose request the collector holds open, then 2-9 events with 300-700 KiB (sometimes tiny or >1 MiB) string payloads that accumulate into ONE batch which emit splits into 1..5+ size-limited requests; the collector answers the n-th request of that batch by script {ack, 4xx/5xx, non-zero grpc-status in trailers or in a Trailers-Only response, bare HTTP error on gRPC, close before reading, read then close, stall past the request timeout (30 s, scaled by hook H3) without answering / after the response HEADERS / after a fragment of the response body, wedge the whole connection (open, never answering again, reading or not, while new connections work), abort the response after its HEADERS or mid body (RST_STREAM / GOAWAY / connection dropped), ack then close}; optionally one signal's endpoint is down (refused / reset / 503) for the whole case; the application ends with blocking_flush or by dropping the emitter (while batches are queued, or while a failed request waits for its back-off). Families: split (no fault), fault (1-2 scripted failures), stall, outage, drop, exhaust (batch A fails on every attempt until emit gives it up, then batch B whose first request fails once and must be re-sent and acknowledged). Non-trivial = some signal's batch needed >= 2 requests, or >= 1 request failed.";
 
 /// Bounds shrinking cost: every evaluation of a scenario costs 0.1-30 s of real time.
 struct Guard {
@@ -56,6 +56,10 @@ fn subset(min: usize) -> impl Strategy<Value = [bool; 3]> {
     prop::sample::select(all)
 }
 
+fn abort_how() -> impl Strategy<Value = Abort> {
+    prop_oneof![Just(Abort::RstStream), Just(Abort::Goaway), Just(Abort::DropConnection)]
+}
+
 fn fault_kind(wire: Wire, stall: bool) -> BoxedStrategy<Fault> {
     if stall {
         return prop_oneof![
@@ -78,6 +82,8 @@ fn fault_kind(wire: Wire, stall: bool) -> BoxedStrategy<Fault> {
             1 => Just(Fault::StallMidBody),
             1 => Just(Fault::WedgeReading),
             1 => Just(Fault::WedgeSilent),
+            1 => abort_how().prop_map(Fault::AbortAfterHeaders),
+            1 => abort_how().prop_map(Fault::AbortMidBody),
         ]
         .boxed(),
         Wire::Grpc => prop_oneof![
@@ -92,6 +98,8 @@ fn fault_kind(wire: Wire, stall: bool) -> BoxedStrategy<Fault> {
             2 => Just(Fault::StallMidBody),
             2 => Just(Fault::WedgeReading),
             2 => Just(Fault::WedgeSilent),
+            6 => abort_how().prop_map(Fault::AbortAfterHeaders),
+            3 => abort_how().prop_map(Fault::AbortMidBody),
         ]
         .boxed(),
     }
@@ -129,7 +137,7 @@ fn stream(wire: Wire, family: Family, thorough: bool) -> BoxedStrategy<Stream> {
                 .prop_map(|(sizes_kib, a, b)| {
                     // a wedge belongs on the connection the acknowledged plug used: request 0 or 1
                     let early = |mut f: FaultAt| {
-                        if matches!(f.fault, Fault::WedgeReading | Fault::WedgeSilent) {
+                        if matches!(f.fault, Fault::WedgeReading | Fault::WedgeSilent | Fault::AbortAfterHeaders(_) | Fault::AbortMidBody(_)) {
                             f.pos = f.pos.min(1);
                         }
                         f
@@ -308,6 +316,11 @@ fn main() {
             s.require("fault:grpc-stall-mid-body", if quick { 4 } else { 200 });
             s.require("fault:http1-stall-after-headers", if quick { 4 } else { 200 });
             s.require("fault:http1-stall-mid-body", if quick { 4 } else { 200 });
+            // the response is cut off after its HEADERS: no grpc-status ever arrived, that is a failed request
+            for how in ["rst", "goaway", "drop"] {
+                s.require(&format!("fault:grpc-abort-after-headers/{how}"), if quick { 4 } else { 150 });
+            }
+            s.require("fault:http1-abort-after-headers", if quick { 4 } else { 150 });
             // the whole connection silent but open, new connections fine: it has to be replaced
             s.require("fault:grpc-wedged-connection", if quick { 6 } else { 300 });
             s.require("fault:http1-wedged-connection", if quick { 6 } else { 300 });
@@ -347,6 +360,30 @@ fn main() {
                             })
                             .unwrap();
                     }
+                }
+                // gRPC responses cut off after their HEADERS, one generator per way of cutting (so that each
+                // required class is reached by construction, not by the fault-kind lottery)
+                for (how, hname) in [(Abort::RstStream, "rst"), (Abort::Goaway, "goaway"), (Abort::DropConnection, "drop")] {
+                    let name = format!("abort-grpc-{hname}");
+                    let cases = s.n(8, 300);
+                    std::thread::Builder::new()
+                        .stack_size(16 << 20)
+                        .spawn_scoped(scope, move || {
+                            let guard = Guard::new();
+                            let strat = move || {
+                                (scenario(Wire::Grpc, Family::Fault, thorough), prop::bool::weighted(0.25)).prop_map(move |(mut sc, mid)| {
+                                    for st in sc.streams.iter_mut().flatten() {
+                                        for f in st.faults.iter_mut() {
+                                            f.fault = if mid { Fault::AbortMidBody(how) } else { Fault::AbortAfterHeaders(how) };
+                                            f.pos = f.pos.min(1);
+                                        }
+                                    }
+                                    sc
+                                })
+                            };
+                            s.gen(&name, cases, strat, |sc, cx| guard.check(s, sc, cx));
+                        })
+                        .unwrap();
                 }
                 for (family, fname, q, t, instances) in plan {
                     for (wire, wname) in wires {
